@@ -454,6 +454,23 @@ func queryFingerprint(q *query.Query) string {
 
 // ---------------------------------------------------------------- named updaters
 
+// idForm spells a UUID in another of the textual forms uuid.FromString accepts
+func idForm(id, kind string) string {
+	switch kind {
+	case "upper":
+		b := []byte(id)
+		for i, ch := range b {
+			if ch >= 'a' && ch <= 'f' {
+				b[i] = ch - 32
+			}
+		}
+		return string(b)
+	case "braces":
+		return "{" + id + "}"
+	}
+	return "urn:uuid:" + id
+}
+
 func copySlice(s []interface{}) []interface{} {
 	out := make([]interface{}, len(s))
 	copy(out, s)
@@ -478,6 +495,13 @@ func (x *Exec) updater(u []interface{}) func(*document.Document) *document.Docum
 		}
 	case "id":
 		return func(d *document.Document) *document.Document { return d }
+	case "idform":
+		kind := u[1].(string)
+		return func(d *document.Document) *document.Document {
+			c := d.Copy()
+			c.Set("_id", idForm(d.ObjectId(), kind))
+			return c
+		}
 	case "nil":
 		return func(d *document.Document) *document.Document { return nil }
 	case "append", "appendInPlace":
@@ -1007,6 +1031,9 @@ func (x *Exec) Step(e E, audit bool) E {
 	}
 	runs := make([]interface{}, 0)
 	var genIds [][]byte
+	if ms, ok := e["pause"]; ok { // let the wall clock advance before the call
+		time.Sleep(time.Duration(toInt(ms)) * time.Millisecond)
+	}
 	for bi, b := range x.Backends {
 		if b.dead {
 			runs = append(runs, E{"be": b.Name, "res": E{"st": "timeout", "err": "timeout"}})
